@@ -482,6 +482,14 @@ def scripts(ctx):
         for i in range(300):
             s += one(rng.choice(names), rng.choice(["reply", "reply", "reply", "never", "cb_after"]))
         out.append((rng.choice([4, 8, 14]), rng.randrange(256), s))
+    # ... and with a single command that is never answered (or is abandoned by its caller) early on: when the counter comes round
+    # to its number again, that number is a number like any other
+    for k in range(ctx.n(2, 8)):
+        s = []
+        lone = rng.randrange(0, 20)
+        for i in range(290):
+            s += one(rng.choice(names), ["never", "cancel_wait"][k % 2] if i == lone else "reply")
+        out.append((rng.choice([4, 8, 14]), rng.randrange(256), s))
     return out
 
 
